@@ -481,6 +481,19 @@ def getattr_(it, obj, name, node=None):
         raise_(AttributeError, f"'{obj.cls.__name__}' object has no attribute '{name}'", node=node)
     if isinstance(obj, SuperProxy):
         target = obj.obj
+        if isinstance(target, type):
+            # super() inside a classmethod: look the name up in the class's own MRO after the defining class, bound to the class
+            mro = target.__mro__
+            start = mro.index(obj.after_cls) + 1 if obj.after_cls in mro else 0
+            for k in mro[start:]:
+                if name in k.__dict__:
+                    raw = k.__dict__[name]
+                    if isinstance(raw, classmethod):
+                        return BoundMethod(raw.__func__, target, owner=k)
+                    if isinstance(raw, staticmethod):
+                        return raw.__func__
+                    return raw
+            raise_(AttributeError, f"super object has no attribute '{name}'", node=node)
         cls = target.cls if isinstance(target, SymObj) else type(target)
         r = _class_lookup(it, target, cls, name, node, after=obj.after_cls)
         if r is _MISSING:
